@@ -609,8 +609,8 @@ class Exec:
             return {"le": d <= 0, "lt": d < 0, "ge": d >= 0, "gt": d > 0}[op]
         if c == "std::intrinsics::discriminant_value":
             return a[0].get().disc
-        if re.match(r"^<(isize|usize|i64|u8) as PartialOrd>::partial_cmp$", c):
-            x, y = a[0].get(), a[1].get()
+        if re.match(r"^<&*(isize|usize|i64|u8|i32|u32) as PartialOrd>::partial_cmp$", c):
+            x, y = dr(a[0]), dr(a[1])
             if isinstance(x, int) and isinstance(y, int): d = (x > y) - (x < y)
             else: d = z3.If(x < y, -1, z3.If(x == y, 0, 1))
             return EnumV("Option", 1, [EnumV("Ordering", d, [])])
